@@ -21,7 +21,7 @@ for arg in sys.argv[1:]:
         m = json.load(open(mp)) if os.path.exists(mp) else {}
         m["property"] = P
         if off:
-            m["round"] = 2
+            m["round"] = 1 + off // 3
         m.setdefault("confirmed", {"compiles_and_suite_passes": None, "demo_fails_on_changed_passes_on_unchanged": None})
         json.dump(m, open(mp, "w"), indent=1)
         print("imported", out)
